@@ -73,8 +73,8 @@ Definition no_sign_atoi (s : str) : Z * str :=
 (* ---- the same loops with C int arithmetic made explicit: None = signed overflow (undefined) *)
 Definition INT_MIN := -2147483648.
 Definition INT_MAX := 2147483647.
-Definition in_int (z : Z) : bool := (INT_MIN <=? z) && (z <=? INT_MAX).
-Definition chk (z : Z) : option Z := if in_int z then Some z else None.
+Definition fits_int (z : Z) : bool := (INT_MIN <=? z) && (z <=? INT_MAX).
+Definition chk (z : Z) : option Z := if fits_int z then Some z else None.
 
 Fixpoint neg_digits_int (n : Z) (s : str) : option Z :=
   match s with
